@@ -50,3 +50,32 @@ func init() {
 		p.Rules = append(p.Rules, Rule{sh.as, func(c *Ctx) { runAs(c, sh.as, sh.orig, sh.f) }})
 	}
 }
+
+// Rules that a seeded change against one property showed to be necessary conditions of that property too,
+// although they were written for another (DESIGN 8.5): run under both names.
+func init() {
+	for _, sh := range []struct {
+		prop, as, orig string
+		f              func(*Ctx)
+	}{
+		{"C10", "C10/loader-cache-key", "C03/loader-on-miss-only", ruleC03LoaderOnMiss}, // a cache that is never hit recurses without bound
+		{"C06", "C06/ref-per-occurrence", "C03/ref-per-occurrence", ruleC03RefPerOccurrence},
+		{"C17", "C17/ref-per-occurrence", "C03/ref-per-occurrence", ruleC03RefPerOccurrence},
+		{"C18", "C18/ref-per-occurrence", "C03/ref-per-occurrence", ruleC03RefPerOccurrence}, // an unreferenced definition must not capture a reference
+		{"C06", "C06/evaluation-sites", "C07/R1", ruleC07R1},
+		{"C14", "C14/scope-stack-discipline", "C06/scope-stack-discipline", ruleC06Stack}, // state that survives a call makes the next verdict depend on it
+		{"C14", "C14/side-table-keys", "C10/side-table-keys", ruleC10SideTableKeys},
+		{"C16", "C16/bounds-table", "C04/bounds-table", func(c *Ctx) { ruleBoundsTable(c, "C04/bounds-table") }},
+		{"C16", "C16/clone-three-shapes", "C20/three-shapes-everywhere", ruleC20ThreeShapes},
+		{"C16", "C16/clone-no-skip", "C20/no-skip", ruleC20NoSkip},
+		{"C17", "C17/globals", "C13/globals", ruleC13Globals}, // a package-level pointer cache mutated after publication
+		{"C18", "C18/anchor-gate", "C02/anchor-gate", ruleC02AnchorGate},
+		{"C18", "C18/draft-keywords-gated", "C02/draft-keywords-gated", ruleC02DraftKeywords},
+		{"C02", "C02/empty-preserved", "C05/empty-preserved", ruleC05Empty},
+		{"C04", "C04/type-subsumption", "C01/type-subsumption", ruleC01TypeSubsumption},
+	} {
+		sh := sh
+		p := Properties[sh.prop]
+		p.Rules = append(p.Rules, Rule{sh.as, func(c *Ctx) { runAs(c, sh.as, sh.orig, sh.f) }})
+	}
+}
